@@ -452,7 +452,14 @@ func (ex *Exec) store(st *State, p *Ptr, v Val) {
 			vc.fatalf("in-place write into a slice of unknown origin at %s", ex.where())
 		}
 	case PGlobal:
-		vc.fatalf("store to global %s", p.Global.Name())
+		// the new value of a package-level variable (seen by later loads on this path)
+		name := "g_" + sanitize(p.Global.Pkg.Pkg.Name()+"_"+p.Global.Name())
+		cur := ex.globalTerm(st, p.Global)
+		nv := ex.toTerm(st, v, p.Typ)
+		if len(p.Path) > 0 {
+			nv = vc.updatePath(cur, p.Path, nv)
+		}
+		st.ghost["global:"+name] = nv
 	}
 }
 
@@ -780,6 +787,9 @@ func (ex *Exec) run(fr *Frame, b *ssa.BasicBlock, i int, pred *ssa.BasicBlock, s
 			var rets []Val
 			for _, r := range x.Results {
 				rets = append(rets, ex.val(fr, st, r))
+				if fr.top {
+					ex.checkTypeInv(fr, st, rets[len(rets)-1], r.Type(), "returned")
+				}
 			}
 			k(st, rets, false)
 			return
@@ -1107,6 +1117,7 @@ func (ex *Exec) instr(fr *Frame, ins ssa.Instruction, pred *ssa.BasicBlock, st *
 		ex.lookup(fr, x, st)
 	case *ssa.MakeInterface:
 		v := ex.val(fr, st, x.X)
+		ex.checkTypeInv(fr, st, v, x.X.Type(), "converted to an interface")
 		c := vc.sorts.AnyCtor(x.X.Type())
 		t := ex.toTerm(st, v, x.X.Type())
 		if c.sort == SAny {
@@ -1154,6 +1165,7 @@ func (ex *Exec) instr(fr *Frame, ins ssa.Instruction, pred *ssa.BasicBlock, st *
 			binds = append(binds, ex.val(fr, st, b))
 		}
 		fr.vals[x] = Val{K: VClosure, Fn: x.Fn.(*ssa.Function), Bind: binds}
+		ex.checkCaptures(fr, st, x, binds)
 	case *ssa.Defer:
 		var args []Val
 		for _, a := range x.Call.Args {
@@ -1235,6 +1247,13 @@ func (ex *Exec) unop(fr *Frame, x *ssa.UnOp, st *State) {
 		lv := ex.load(st, p)
 		if lv.K == VTerm {
 			ex.assumeIntRange(st, lv.T, x.Type())
+		}
+		if g, ok := x.X.(*ssa.Global); ok && lv.K == VTerm && !(fr.fn.Name() == "init" && fr.fn.Pkg == g.Pkg) {
+			if d := vc.prog.globalInv(g); d != nil {
+				vc.usedCon["globalinv "+d.Name] = true
+				f, _ := ex.invFormula(st, d, lv.T, x.Type(), false)
+				st.assume(f)
+			}
 		}
 		fr.vals[x] = lv
 	case token.NOT:
@@ -1559,6 +1578,11 @@ func (ex *Exec) typeAssert(fr *Frame, x *ssa.TypeAssert, st *State) bool {
 	} else {
 		c := vc.sorts.AnyCtor(x.AssertedType)
 		res = Term{app(c.sel, v.S), c.sort}
+	}
+	if d := vc.prog.typeDecl("typeinv", x.AssertedType); d != nil {
+		// the boxed value satisfied the invariant when it was converted to an interface
+		f, _ := ex.invFormula(st, d, res, x.AssertedType, false)
+		st.assume(implies(test, f))
 	}
 	if x.CommaOk {
 		zero := vc.sorts.Zero(res.Sort)
